@@ -119,10 +119,10 @@ def mutation_texts():
     return out
 
 
-def run_mutations(drv, rdir):
+def run_mutations(drv, rdir, texts=None, label="mutation"):
     """Every mutated text through the real single-file compile entry point (oal_wasm::compile, natively), in parallel."""
     import concurrent.futures as cf
-    texts = mutation_texts()
+    texts = mutation_texts() if texts is None else texts
     crashes = []
 
     def one(item):
@@ -133,10 +133,10 @@ def run_mutations(drv, rdir):
     with cf.ThreadPoolExecutor(max_workers=max(2, (os.cpu_count() or 4) - 2)) as ex:
         for nm, text, w in ex.map(one, texts.items()):
             if w["rc"] != 0 or w["status"] is None:
-                fn = os.path.join(rdir, "mutation-" + nm.replace("/", "-") + ".oal")
+                fn = os.path.join(rdir, label + "-" + nm.replace("/", "-") + ".oal")
                 with open(fn, "w", encoding="utf-8") as f:
                     f.write(text)
-                crashes.append("oal_wasm::compile on mutation %s: exit %s (%s) [%s]" % (nm, w["rc"], (re.search(r"panicked at [^\n]+|overflowed its stack|TIMEOUT", w["out"]) or [""])[0], fn))
+                crashes.append("oal_wasm::compile on " + label + " %s: exit %s (%s) [%s]" % (nm, w["rc"], (re.search(r"panicked at [^\n]+|overflowed its stack|TIMEOUT", w["out"]) or [""])[0], fn))
     return crashes, len(texts)
 
 
@@ -169,6 +169,7 @@ def run_nasty(extra=None, tag="nasty"):
     texts["long-file-then-deep-nest"] = "".join("let v%d = { 'a num, 'b [str] };\n" % i for i in range(8000)) + \
         "let z = " + "{ 'n " * 12 + "num" + " }" * 12 + ";\nres / on get -> <z>;\n"
     crashes, detail = [], {}
+    family_known = []
     for name, text in texts.items():
         big = len(text) > 100000
         r = run_cli(cli, {"main.oal": text}, workdir=os.path.join(rdir, name), timeout=90 if big else 30)
@@ -203,8 +204,29 @@ def run_nasty(extra=None, tag="nasty"):
     mc, nmut = run_mutations(drv, rdir)
     crashes += mc[:8]
     detail["token-mutations"] = {"texts": nmut, "crashes": len(mc)}
+    # every catalogued expression form written into every catalogued position, well typed or not (the site / producer
+    # catalogue of C01, with the optional neighbours of each position present and absent)
+    try:
+        import props.c01 as c01
+        fam = c01.every_producer_in_every_site()
+        fc, nfam = run_mutations(drv, rdir, texts=fam, label="form-in-position")
+        known = Findings()
+        fc2 = []
+        for cmsg in fc:
+            mm = re.search(r"form-in-position ([A-Za-z.]+)-\d+-([a-z0-9-]+):", cmsg)
+            kf = known.match("C04", {"mode": "accepted-form-panics", "site": mm.group(1), "form": mm.group(2)}) if mm else None
+            if kf:
+                detail.setdefault("known_findings", {})[kf.get("what", "")[:60]] = True
+                family_known.append(kf)
+            else:
+                fc2.append(cmsg)
+        crashes += fc2[:8]
+        detail["forms-in-positions"] = {"texts": nfam, "crashes": len(fc)}
+    except Exception as exn:
+        crashes.append("forms-in-positions family could not run: %s" % str(exn)[:100])
     with open(os.path.join(rdir, "cmd"), "w") as f:
         f.write("#!/bin/sh\ncd /verif && exec ./check C04 --replay %s\n" % rdir)
+    detail["_known"] = family_known
     return crashes, rdir, detail
 
 
@@ -351,6 +373,11 @@ def check():
     kani_failed = [h for h, r in kres.items() if r["verdict"] == "FAILED"]
     if True:   # the real-binary oracle is cheap: always run it (replay of a failing lemma, or translator validation)
         crashes, rdir, detail = run_nasty(extra_texts)
+        seen_k = set()
+        for kf in detail.pop("_known", []):
+            if kf.get("what") not in seen_k:
+                seen_k.add(kf.get("what"))
+                o.known_finding(kf.get("what", "known finding"))
         o.extra["real_front_ends"] = {"texts": len(detail), "crashes": crashes, "detail": detail}
         if bad:
             if crashes:
@@ -582,6 +609,7 @@ def replay(path):
     if os.path.exists(os.path.join(path, "meta.json")):
         return kanirun.replay_saved(path)
     crashes, rdir, detail = run_nasty()
+    detail.pop("_known", None)
     for k, v in detail.items():
         print(k, v)
     print("crashes:", crashes)
